@@ -55,11 +55,11 @@ echo "== translator correspondence: translator/testdata/tsem run natively vs. ge
 T=/tmp/ttie-selftest-sem-$$; rm -rf "$T"; mkdir -p "$T"; scratch+=("$T")
 bin/ttie --build >/dev/null || { echo "FAIL translator does not build"; exit 2; }
 if (cd translator/testdata/tsem && go run . > "$T/examples.txt") \
-   && build/go2coq -repo translator/testdata/tsem -targets translator/testdata/tsem/targets.json -out "$T" -only sem >/dev/null; then
+   && build/go2coq -repo translator/testdata/tsem -targets translator/testdata/tsem/targets.json -out "$T" -only SEM >/dev/null; then
   { cat <<'EOV'
 From Coq Require Import ZArith NArith QArith List Bool.
 From MM Require Import Base.Num Base.GoSem.
-From MMGen Require Import Gen_sem_types Gen_sem_sem.
+From MMGen Require Import Gen_sem_types Gen_sem_sem Gen_sem_fuel.
 Import ListNotations.
 Local Open Scope Q_scope.
 Fixpoint qlist_eqb (a b : list Q) : bool :=
@@ -68,10 +68,13 @@ Fixpoint qlist_eqb (a b : list Q) : bool :=
   | x :: a', y :: b' => Qeq_bool x y && qlist_eqb a' b'
   | _, _ => false
   end.
+Fixpoint qins (x : Q) (l : list Q) : list Q :=
+  match l with [] => [x] | y :: t => if Qle_bool x y then x :: l else y :: qins x t end.
+Definition qsort (l : list Q) : list Q := fold_right qins [] l.
 EOV
     cat "$T/examples.txt"; } > "$T/SemTest.v"
   okc=1
-  for f in Gen_sem_types Gen_sem_sem SemTest; do
+  for f in Gen_sem_types Gen_sem_sem Gen_sem_fuel SemTest; do
     (cd "$T" && timeout 600 coqc -Q "$ROOT/coq" MM -Q . MMGen $f.v) > "$T/$f.log" 2>&1 || { okc=0; echo "FAIL translator correspondence ($f.v):"; tail -5 "$T/$f.log"; break; }
   done
   if [ $okc = 1 ]; then echo "ok   translator correspondence: $(wc -l < "$T/examples.txt") native evaluations reproduced by the generated definitions"; else fail=1; fi
@@ -178,6 +181,232 @@ mk U1; d=$D
 edit "$d/stats/stream.go" 's.replace("\treturn float64(s.Count)\n", "\tw := map[int]float64{0: float64(s.Count)}\n\treturn w[0]\n")'
 expect U1 "$d" C13 translation_failed "unsupported: type map"
 U1="$d"
+
+echo "== H6 harmless: FindLevel's down loop as a for-cond loop with the conjuncts swapped; parity of the level tested as level%2 != 0"
+mk H6; d=$D
+edit "$d/scale/ticks.go" 's.replace("\t\tfor l--; l >= minLevel && ticker.CountTicks(l) <= o.Max; l-- {\n\t\t}", "\t\tl -= 1\n\t\tfor ticker.CountTicks(l) <= o.Max && minLevel <= l {\n\t\t\tl = l - 1\n\t\t}")'
+edit "$d/scale/linear.go" 's.replace("(level%2 == 1 || level%2 == -1)", "level%2 != 0")'
+expect H6 "$d" C17 ok
+
+echo "== B8 breaking: FindLevel's down loop stops one level early (l > minLevel)"
+mk B8; d=$D
+edit "$d/scale/ticks.go" 's.replace("for l--; l >= minLevel && ticker.CountTicks(l) <= o.Max; l-- {", "for l--; l > minLevel && ticker.CountTicks(l) <= o.Max; l-- {")'
+expect B8 "$d" C17 tie_failed tie_FindLevel_fuel
+
+echo "== B9 breaking: spacingAtLevel with a slack of 1e-9 instead of 1e-10"
+mk B9; d=$D
+edit "$d/scale/linear.go" 's.replace("slack := (s.Max - s.Min) * 1e-10", "slack := (s.Max - s.Min) * 1e-9")'
+expect B9 "$d" C17 tie_failed tie_Linear_spacingAtLevel
+
+echo "== B10 breaking: Nice moves the lower bound without the outwards-only guard (defect D10 again)"
+mk B10; d=$D
+edit "$d/scale/linear.go" 's.replace("min <= s.Min && !math.IsInf(min, 0)", "!math.IsInf(min, 0)")'
+expect B10 "$d" C17 tie_failed tie_Linear_Nice
+
+echo "== U2 untranslatable: FindLevel's up loop leaves through a break"
+mk U2; d=$D
+edit "$d/scale/ticks.go" 's.replace("\t\tfor l++; l <= maxLevel && ticker.CountTicks(l) > o.Max; l++ {\n\t\t}", "\t\tfor l++; l <= maxLevel; l++ {\n\t\t\tif ticker.CountTicks(l) <= o.Max {\n\t\t\t\tbreak\n\t\t\t}\n\t\t}")'
+expect U2 "$d" C17 translation_failed "break inside a loop"
+
+echo "== H7 harmless: Quantile tests the upper clamp first, interpolates through a temporary, and writes target = target - weight"
+mk H7; d=$D
+edit "$d/stats/sample.go" 's.replace("\t\tif k <= 0 {\n\t\t\treturn s.Xs[0]\n\t\t} else if k >= len(s.Xs) {\n\t\t\treturn s.Xs[len(s.Xs)-1]\n\t\t}\n\t\treturn s.Xs[k-1] + frac*(s.Xs[k]-s.Xs[k-1])", "\t\tif last := len(s.Xs) - 1; k > last {\n\t\t\treturn s.Xs[last]\n\t\t} else if k < 1 {\n\t\t\treturn s.Xs[0]\n\t\t}\n\t\tlo := s.Xs[k-1]\n\t\treturn lo + (s.Xs[k]-lo)*frac").replace("\t\t\ttarget -= weight\n\t\t\tif target < 0 {", "\t\t\ttarget = target - weight\n\t\t\tif 0 > target {")'
+expect H7 "$d" C10 ok
+
+echo "== B11 breaking: Quantile with the R6 plotting position q*(N+1) instead of R8"
+mk B11; d=$D
+edit "$d/stats/sample.go" 's.replace("n := 1/3.0 + q*(N+1/3.0) // R8", "n := q * (N + 1)")'
+expect B11 "$d" C10 tie_failed tie_Sample_Quantile
+
+echo "== B12 breaking: weighted Quantile returns at target <= 0"
+mk B12; d=$D
+edit "$d/stats/sample.go" 's.replace("\t\t\ttarget -= weight\n\t\t\tif target < 0 {", "\t\t\ttarget -= weight\n\t\t\tif target <= 0 {")'
+expect B12 "$d" C10 tie_failed tie_Sample_Quantile
+
+echo "== H8 harmless: Welch test with named temporaries, one square written as a product, sums reordered"
+mk H8; d=$D
+edit "$d/stats/ttest.go" 's.replace("\tdof := math.Pow(v1/n1+v2/n2, 2) /\n\t\t(math.Pow(v1/n1, 2)/(n1-1) + math.Pow(v2/n2, 2)/(n2-1))\n\ts := math.Sqrt(v1/n1 + v2/n2)", "\ta, b := v1/n1, v2/n2\n\tdof := math.Pow(a+b, 2) / (b*b/(n2-1) + math.Pow(a, 2)/(n1-1))\n\ts := math.Sqrt(b + a)")'
+expect H8 "$d" C04 ok
+
+echo "== B13 breaking: pooled t-test with n1+n2-1 degrees of freedom"
+mk B13; d=$D
+edit "$d/stats/ttest.go" 's.replace("dof := n1 + n2 - 2", "dof := n1 + n2 - 1")'
+expect B13 "$d" C04 tie_failed tie_TwoSampleTTest
+
+echo "== B14 breaking: the LocationLess tail is 1 - CDF(t)"
+mk B14; d=$D
+edit "$d/stats/ttest.go" 's.replace("\tcase LocationLess:\n\t\tp = dist.CDF(t)", "\tcase LocationLess:\n\t\tp = 1 - dist.CDF(t)")'
+expect B14 "$d" C04 tie_failed tie_newTTestResult
+
+echo "== H9 harmless: QuantileCI's greedy loop with the right step first (lp < rp) and accum = accum + ..."
+mk H9; d=$D
+edit "$d/stats/quantileci.go" 's.replace("\t\t\tif lp >= rp { // Left-bias\n\t\t\t\taccum += lp", "\t\t\tif !(lp < rp) { // Left-bias\n\t\t\t\taccum = accum + lp").replace("\t\tif r <= l {\n", "\t\tif l >= r {\n")'
+expect H9 "$d" C11 ok
+
+echo "== B15 breaking: the greedy loop prefers the right neighbour on ties (lp > rp)"
+mk B15; d=$D
+edit "$d/stats/quantileci.go" 's.replace("if lp >= rp { // Left-bias", "if lp > rp {")'
+expect B15 "$d" C11 tie_failed tie_QuantileCI_small_fuel
+
+echo "== B16 breaking: the normal branch keeps an empty band when r == l (fix 24cd30f undone in part)"
+mk B16; d=$D
+edit "$d/stats/quantileci.go" 's.replace("\t\tif r <= l {\n", "\t\tif r < l {\n")'
+expect B16 "$d" C11 tie_failed tie_QuantileCI_normal
+
+echo "== H10 harmless: labeledMerge with the branches swapped (x2 first unless x1[i] < x2[j]); rank computed as (rank1+i)/2"
+mk H10; d=$D
+edit "$d/stats/utest.go" 's.replace("\t\tif x1[i] < x2[j] {\n\t\t\tmerged[o] = x1[i]\n\t\t\tlabels[o] = 1\n\t\t\ti++\n\t\t} else {\n\t\t\tmerged[o] = x2[j]\n\t\t\tlabels[o] = 2\n\t\t\tj++\n\t\t}", "\t\tif !(x1[i] < x2[j]) {\n\t\t\tmerged[o] = x2[j]\n\t\t\tlabels[o] = 2\n\t\t\tj++\n\t\t} else {\n\t\t\tmerged[o] = x1[i]\n\t\t\tlabels[o] = 1\n\t\t\ti++\n\t\t}").replace("rank := float64(i+rank1) / 2", "rank := float64(rank1+i) / 2")'
+expect H10 "$d" C01 ok
+
+echo "== B17 breaking: labeledMerge takes x1 first on equal values (<=)"
+mk B17; d=$D
+edit "$d/stats/utest.go" 's.replace("\t\tif x1[i] < x2[j] {", "\t\tif x1[i] <= x2[j] {")'
+expect B17 "$d" C01 tie_failed tie_labeledMerge
+
+echo "== B18 breaking: the average rank of a tie group is off by a half"
+mk B18; d=$D
+edit "$d/stats/utest.go" 's.replace("rank := float64(i+rank1) / 2", "rank := float64(i+rank1+1) / 2")'
+expect B18 "$d" C03 tie_failed tie_MannWhitneyUTest
+
+echo "== B19 breaking: LocationGreater uses CDF(U1) without the half step (defect D3 again)"
+mk B19; d=$D
+edit "$d/stats/utest.go" 's.replace("p = 1 - dist.CDF(U1-0.5)", "p = 1 - dist.CDF(U1)")'
+expect B19 "$d" C01 tie_failed tie_MannWhitneyUTest
+
+echo "== H11 harmless: KDE.PDF tests the two boundary guards in separate ifs"
+mk H11; d=$D
+edit "$d/stats/kde.go" 's.replace("\tif bc && (x < kde.BoundaryMin || x >= kde.BoundaryMax) {\n\t\treturn 0\n\t}", "\tif bc {\n\t\tif x >= kde.BoundaryMax {\n\t\t\treturn 0\n\t\t}\n\t\tif x < kde.BoundaryMin {\n\t\t\treturn 0\n\t\t}\n\t}")'
+expect H11 "$d" C12 ok
+
+echo "== B20 breaking: the second image series of the bounded density reflects with +w (defect D5 again)"
+mk B20; d=$D
+edit "$d/stats/kde.go" 's.replace("return y(x-(n+1)*d-w) + y(x-(n+1)*d)", "return y(x-(n+1)*d+w) + y(x-(n+1)*d)")'
+expect B20 "$d" C12 tie_failed tie_KDE_PDF
+
+echo "== B21 breaking: CDF with an upper bound only subtracts the reflected tail"
+mk B21; d=$D
+edit "$d/stats/kde.go" 's.replace("return y(x) + (1 - y(2*kde.BoundaryMax-x))", "return y(x) - (1 - y(2*kde.BoundaryMax-x))")'
+expect B21 "$d" C12 tie_failed tie_KDE_CDF
+
+echo "== H12 harmless: bisectBool tests fmid != flow first (branches swapped)"
+mk H12; d=$D
+edit "$d/stats/alg.go" 's.replace("\t\tmid := (high + low) / 2\n\t\tif mid == high || mid == low {\n\t\t\treturn low, high\n\t\t}\n\t\tfmid := f(mid)\n\t\tif fmid == flow {\n\t\t\tlow = mid\n\t\t\tflow = fmid\n\t\t} else {\n\t\t\thigh = mid\n\t\t\tfhigh = fmid\n\t\t}", "\t\tmid := (high + low) / 2\n\t\tif mid == high || mid == low {\n\t\t\treturn low, high\n\t\t}\n\t\tfmid := f(mid)\n\t\tif fmid != flow {\n\t\t\thigh = mid\n\t\t\tfhigh = fmid\n\t\t} else {\n\t\t\tlow = mid\n\t\t\tflow = fmid\n\t\t}")'
+expect H12 "$d" C07 ok
+
+echo "== B22 breaking: bisectBool keeps the wrong half"
+mk B22; d=$D
+edit "$d/stats/alg.go" 's.replace("\t\tif fmid == flow {\n\t\t\tlow = mid\n\t\t\tflow = fmid", "\t\tif fmid != flow {\n\t\t\tlow = mid\n\t\t\tflow = fmid")'
+expect B22 "$d" C07 tie_failed tie_bisectBool
+
+echo "== H13 harmless: grow doubles with k *= 2 instead of k <<= 1"
+mk H13; d=$D
+edit "$d/graph/graphalg/marks.go" 's.replace("\t\tk <<= 1", "\t\tk *= 2")'
+expect H13 "$d" C18 ok
+
+echo "== B23 breaking: grow's loop is for k <= n (defect D11 again)"
+mk B23; d=$D
+edit "$d/graph/graphalg/marks.go" 's.replace("\tfor k < n {", "\tfor k <= n {")'
+expect B23 "$d" C18 tie_failed tie_NodeMarks_grow
+
+echo "== B24 breaking: Next starts the word scan at the word of i instead of the next one"
+mk B24; d=$D
+edit "$d/graph/graphalg/marks.go" 's.replace("for bi := (i / 32) + 1; bi < len(m.marks); bi++ {", "for bi := (i / 32); bi < len(m.marks); bi++ {")'
+expect B24 "$d" C18 tie_failed tie_NodeMarks_Next
+
+echo "== H14 harmless: LOESS computes the tricube weight through named cubes; clamps q with q > len(xs)"
+mk H14; d=$D
+edit "$d/fit/loess.go" 's.replace("\t\t\ttmp := 1 - u*u*u\n\t\t\tweights[i] = tmp * tmp * tmp", "\t\t\tu3 := u * u * u\n\t\t\ttmp := 1 - u3\n\t\t\tweights[i] = tmp * (tmp * tmp)").replace("\tif q >= len(xs) {\n\t\tq = len(xs)\n\t}", "\tif q > len(xs) {\n\t\tq = len(xs)\n\t}")'
+expect H14 "$d" C15 ok
+
+echo "== B25 breaking: the LOESS window search uses a strict comparison"
+mk B25; d=$D
+edit "$d/fit/loess.go" 's.replace("return (xs[i] + xs[i+q]) >= x*2", "return (xs[i] + xs[i+q]) > x*2")'
+expect B25 "$d" C15 tie_failed tie_LOESS
+
+echo "== B26 breaking: bisquare instead of tricube weights"
+mk B26; d=$D
+edit "$d/fit/loess.go" 's.replace("weights[i] = tmp * tmp * tmp", "weights[i] = tmp * tmp")'
+expect B26 "$d" C15 tie_failed tie_LOESS
+
+echo "== H15 harmless: Reverse swaps through a temporary and steps the two indices separately"
+mk H15; d=$D
+edit "$d/graph/graphalg/order.go" 's.replace("\tfor i, j := 0, len(xs)-1; i < j; i, j = i+1, j-1 {\n\t\txs[i], xs[j] = xs[j], xs[i]\n\t}", "\tfor i, j := 0, len(xs)-1; j > i; {\n\t\ttmp := xs[i]\n\t\txs[i] = xs[j]\n\t\txs[j] = tmp\n\t\ti++\n\t\tj--\n\t}")'
+expect H15 "$d" C19 ok
+
+echo "== B27 breaking: Reverse stops one swap early"
+mk B27; d=$D
+edit "$d/graph/graphalg/order.go" 's.replace("i < j; i, j = i+1, j-1 {", "i+2 < j; i, j = i+1, j-1 {")'
+expect B27 "$d" C19 tie_failed tie_Reverse
+
+echo "== H16 harmless: intersect compares with > and uses temporaries"
+mk H16; d=$D
+edit "$d/graph/graphalg/dom.go" 's.replace("\t\tfor poNum[b1] < poNum[b2] {\n\t\t\tb1 = idom[b1]\n\t\t}", "\t\tfor poNum[b2] > poNum[b1] {\n\t\t\tup := idom[b1]\n\t\t\tb1 = up\n\t\t}")'
+expect H16 "$d" C19 ok
+
+echo "== B28 breaking: intersect moves the wrong finger in the second loop"
+mk B28; d=$D
+edit "$d/graph/graphalg/dom.go" 's.replace("\t\tfor poNum[b2] < poNum[b1] {\n\t\t\tb2 = idom[b2]", "\t\tfor poNum[b2] < poNum[b1] {\n\t\t\tb2 = idom[b1]")'
+expect B28 "$d" C19 tie_failed tie_intersect
+
+echo "== B29 breaking: BinomialDist.CDF passes k instead of k+1 to BetaInc"
+mk B29; d=$D
+edit "$d/stats/binomdist.go" 's.replace("return mathx.BetaInc(1-d.P, float64(d.N-ki), k+1)", "return mathx.BetaInc(1-d.P, float64(d.N-ki), k)")'
+expect B29 "$d" C06 tie_failed tie_binom_CDF
+
+echo "== H17 harmless: IDom's predecessor loop without continue (nested ifs); the root test inverted"
+mk H17; d=$D
+edit "$d/graph/graphalg/dom.go" 's.replace("\t\t\t\tif idom[p] == -1 {\n\t\t\t\t\tcontinue\n\t\t\t\t}\n\t\t\t\tif newIdom == -1 {\n\t\t\t\t\tnewIdom = p\n\t\t\t\t\tcontinue\n\t\t\t\t}\n\t\t\t\tnewIdom = intersect(idom, poNum, p, newIdom)", "\t\t\t\tif idom[p] != -1 {\n\t\t\t\t\tif newIdom == -1 {\n\t\t\t\t\t\tnewIdom = p\n\t\t\t\t\t} else {\n\t\t\t\t\t\tnewIdom = intersect(idom, poNum, p, newIdom)\n\t\t\t\t\t}\n\t\t\t\t}")'
+expect H17 "$d" C19 ok
+
+echo "== B30 breaking: IDom also uses predecessors that have no idom yet"
+mk B30; d=$D
+edit "$d/graph/graphalg/dom.go" 's.replace("\t\t\t\tif idom[p] == -1 {\n\t\t\t\t\tcontinue\n\t\t\t\t}\n\t\t\t\tif newIdom == -1 {", "\t\t\t\tif newIdom == -1 {")'
+expect B30 "$d" C19 tie_failed tie_IDom
+
+echo "== H18 harmless: PreOrder marks the node before appending it; PostOrder skips visited successors with continue"
+mk H18; d=$D
+edit "$d/graph/graphalg/order.go" 's.replace("\t\tout = append(out, n)\n\t\tvisited.Mark(n)\n", "\t\tvisited.Mark(n)\n\t\tout = append(out, n)\n").replace("\t\tvisited.Mark(n)\n\t\tfor _, succ := range g.Out(n) {\n\t\t\tif !visited.Test(succ) {\n\t\t\t\tvisit(succ)\n\t\t\t}\n\t\t}\n\t\tout = append(out, n)", "\t\tvisited.Mark(n)\n\t\tfor _, succ := range g.Out(n) {\n\t\t\tif visited.Test(succ) {\n\t\t\t\tcontinue\n\t\t\t}\n\t\t\tvisit(succ)\n\t\t}\n\t\tout = append(out, n)")'
+expect H18 "$d" C19 ok
+
+echo "== B31 breaking: PostOrder records the node before its successors (a pre-order)"
+mk B31; d=$D
+edit "$d/graph/graphalg/order.go" 's.replace("\t\tvisited.Mark(n)\n\t\tfor _, succ := range g.Out(n) {\n\t\t\tif !visited.Test(succ) {\n\t\t\t\tvisit(succ)\n\t\t\t}\n\t\t}\n\t\tout = append(out, n)\n", "\t\tvisited.Mark(n)\n\t\tout = append(out, n)\n\t\tfor _, succ := range g.Out(n) {\n\t\t\tif !visited.Test(succ) {\n\t\t\t\tvisit(succ)\n\t\t\t}\n\t\t}\n")'
+expect B31 "$d" C19 tie_failed tie_PostOrder
+
+echo "== B32 breaking: PreOrder visits successors without testing the marks"
+mk B32; d=$D
+edit "$d/graph/graphalg/order.go" 's.replace("\t\t\tif !visited.Test(succ) {\n\t\t\t\tvisit(succ)\n\t\t\t}\n", "\t\t\tvisit(succ)\n", 1)'
+expect B32 "$d" C19 tie_failed tie_PreOrder
+
+echo "== H19 harmless: DomFrontier tests the unreachable predecessor with swapped conjuncts and operands"
+mk H19; d=$D
+edit "$d/graph/graphalg/dom.go" 's.replace("if pred != root && idom[pred] == -1 {", "if idom[pred] == -1 && root != pred {").replace("if rdf == b {", "if b == rdf {")'
+expect H19 "$d" C19 ok
+
+echo "== B33 breaking: DomFrontier walks up from unreachable predecessors too (defect D12 re-introduced)"
+mk B33; d=$D
+edit "$d/graph/graphalg/dom.go" 's.replace("\t\t\tif pred != root && idom[pred] == -1 {\n\t\t\t\t// pred is unreachable from root.\n\t\t\t\tcontinue\n\t\t\t}\n", "")'
+expect B33 "$d" C19 tie_failed tie_DomFrontier
+
+echo "== B34 breaking: DomFrontier's membership test compares with the runner instead of b"
+mk B34; d=$D
+edit "$d/graph/graphalg/dom.go" 's.replace("\t\t\t\t\tif rdf == b {", "\t\t\t\t\tif rdf == runner {")'
+expect B34 "$d" C19 tie_failed tie_DomFrontier
+
+echo "== H20 harmless: the InvCDF closure tests its guards and the bracket loop condition in the other order"
+mk H20; d=$D
+edit "$d/stats/dist.go" 's.replace("for hiY < y && hiX != inf {", "for hiX != inf && hiY < y {").replace("if y < 0 || y > 1 {", "if y > 1 || y < 0 {")'
+expect H20 "$d" C07 ok
+
+echo "== B35 breaking: the bracket expansion triples its step"
+mk B35; d=$D
+edit "$d/stats/dist.go" 's.replace("\t\t\t\thiY = dist.CDF(hiX)\n\t\t\t\txdelta *= 2", "\t\t\t\thiY = dist.CDF(hiX)\n\t\t\t\txdelta *= 3")'
+expect B35 "$d" C07 tie_failed tie_InvCDF_bracket
+
+echo "== B36 breaking: InvCDF(0) of a distribution with finite support returns 0 instead of the lower bound"
+mk B36; d=$D
+edit "$d/stats/dist.go" 's.replace("\t\t\tif dist.CDF(l) == 0 {\n\t\t\t\t// Finite support\n\t\t\t\treturn l", "\t\t\tif dist.CDF(l) == 0 {\n\t\t\t\t// Finite support\n\t\t\t\treturn 0")'
+expect B36 "$d" C07 tie_failed tie_InvCDF_special
 
 if [ $FULL = 1 ]; then
   echo "== full check on B1: both ties report (correspondence finds a failing input)"
